@@ -750,35 +750,50 @@ func (a *NXActionCTNAT) SetPersistent() error {
 	return nil
 }
 
+// lenFromRanges is the unpadded size of the action for the ranges that are present. The setters assign it (rather
+// than adding to Length) so that setting a bound twice, or asking for Len() between two setters, cannot skew it.
+func (a *NXActionCTNAT) lenFromRanges() uint16 {
+	n := uint16(16)
+	for _, r := range []struct{ bit, size uint16 }{
+		{NX_NAT_RANGE_IPV4_MIN, 4}, {NX_NAT_RANGE_IPV4_MAX, 4}, {NX_NAT_RANGE_IPV6_MIN, 16},
+		{NX_NAT_RANGE_IPV6_MAX, 16}, {NX_NAT_RANGE_PROTO_MIN, 2}, {NX_NAT_RANGE_PROTO_MAX, 2},
+	} {
+		if a.rangePresent&r.bit != 0 {
+			n += r.size
+		}
+	}
+	return n
+}
+
 func (a *NXActionCTNAT) SetRangeIPv4Min(ipMin net.IP) {
 	a.rangeIPv4Min = ipMin
 	a.rangePresent |= NX_NAT_RANGE_IPV4_MIN
-	a.Length += 4
+	a.Length = a.lenFromRanges()
 }
 func (a *NXActionCTNAT) SetRangeIPv4Max(ipMax net.IP) {
 	a.rangeIPv4Max = ipMax
 	a.rangePresent |= NX_NAT_RANGE_IPV4_MAX
-	a.Length += 4
+	a.Length = a.lenFromRanges()
 }
 func (a *NXActionCTNAT) SetRangeIPv6Min(ipMin net.IP) {
 	a.rangeIPv6Min = ipMin
 	a.rangePresent |= NX_NAT_RANGE_IPV6_MIN
-	a.Length += 16
+	a.Length = a.lenFromRanges()
 }
 func (a *NXActionCTNAT) SetRangeIPv6Max(ipMax net.IP) {
 	a.rangeIPv6Max = ipMax
 	a.rangePresent |= NX_NAT_RANGE_IPV6_MAX
-	a.Length += 16
+	a.Length = a.lenFromRanges()
 }
 func (a *NXActionCTNAT) SetRangeProtoMin(protoMin *uint16) {
 	a.rangeProtoMin = protoMin
 	a.rangePresent |= NX_NAT_RANGE_PROTO_MIN
-	a.Length += 2
+	a.Length = a.lenFromRanges()
 }
 func (a *NXActionCTNAT) SetRangeProtoMax(protoMax *uint16) {
 	a.rangeProtoMax = protoMax
 	a.rangePresent |= NX_NAT_RANGE_PROTO_MAX
-	a.Length += 2
+	a.Length = a.lenFromRanges()
 }
 
 func (a *NXActionCTNAT) UnmarshalBinary(data []byte) error {
